@@ -54,6 +54,12 @@ pub fn op_ops(args: &[Sexp]) -> String {
                 "keynum" => out.push(layers.keynum(v[1].int()? as i16).and_then(|k| keys.iter().position(|x| *x == k)).map(|i| i.to_string()).unwrap_or("#f".into())),
                 "keyname" => out.push(layers.keyname(String::from_utf8(v[1].bytes()?).ok()?).and_then(|k| keys.iter().position(|x| *x == k)).map(|i| i.to_string()).unwrap_or("#f".into())),
                 "getname" => { let k = *keys.get(v[1].int()? as usize)?; out.push(layers.get_name(k).map(|s| of_bytes(s.as_bytes()).to_string()).unwrap_or("#f".into())); }
+                "byname" => {
+                    // the calls `LefImporter::import_layer` makes, in its order (the translator checks that shape of the source)
+                    let name = String::from_utf8(v[1].bytes()?).ok()?;
+                    let k = match layers.keyname(name.clone()) { Some(k) => Some(k), None => match layers.nextnum() { Ok(n) => Some(layers.add(raw::Layer::new(n, name))), Err(_) => None } };
+                    match k { Some(k) => { let i = match keys.iter().position(|x| *x == k) { Some(i) => i, None => { keys.push(k); keys.len() - 1 } }; out.push(i.to_string()); } None => out.push("err".into()) }
+                }
                 "nextnum" => out.push(layers.nextnum().map(|n| n.to_string()).unwrap_or("err".into())),
                 _ => return None,
             }
@@ -98,6 +104,14 @@ pub fn oracle(line: &str) -> String {
                     if let P::Other(_) = q { last.entry((i, purpose_s(&q))).or_insert(pn); }
                 }
             }
+            "byname" => {
+                let name = String::from_utf8(v[1].bytes().unwrap()).unwrap();
+                let k = match layers.keyname(name.clone()) { Some(k) => Some(k), None => layers.nextnum().ok().map(|n| layers.add(raw::Layer::new(n, name.clone()))) };
+                if let Some(k) = k {
+                    if !keys.contains(&k) { keys.push(k); }
+                    if layers.get_name(k) != Some(&name) { return format!("fail the layer found / created for name {:?} is named {:?}", name, layers.get_name(k)); }
+                }
+            }
             "addp" => {
                 let i = v[1].int().unwrap() as usize;
                 let k = match keys.get(i) { Some(k) => *k, None => return "na".into() };
@@ -139,7 +153,7 @@ pub fn gen(thorough: bool, rng: &mut Rng, out: &mut Vec<String>) {
                 5 if nkeys > 0 => { let q = pick_purpose(rng); let n = if q.starts_with("(other ") && rng.chance(9, 10) { q[7..q.len() - 1].to_string() } else { nums[rng.below(7) as usize].to_string() }; ops.push(format!("(addp 0 {} {})", n, q)); }
                 6 if nkeys > 0 => ops.push(format!("(num 0 {})", pick_purpose(rng))),
                 7 if nkeys > 0 => ops.push(format!("(purpose 0 {})", nums[rng.below(7) as usize])),
-                8 => ops.push(format!("(keynum {})", nums[rng.below(7) as usize])),
+                8 => ops.push(if rng.coin() { format!("(keynum {})", nums[rng.below(7) as usize]) } else { format!("(byname {})", of_bytes(format!("L{}", rng.below(4)).as_bytes())) }),
                 _ => ops.push(match rng.below(3) { 0 => format!("(keyname {})", of_bytes(format!("L{}", rng.below(3)).as_bytes())), 1 => "(nextnum)".to_string(), _ => format!("(goi {} {})", nums[rng.below(7) as usize], nums[rng.below(7) as usize]) }),
             }
         }
